@@ -9,6 +9,7 @@ import (
 	"go/token"
 	"go/types"
 	"strings"
+	"sync"
 	"time"
 )
 
@@ -99,7 +100,41 @@ func (v *V) tryMerge(states []*State) (res *State) {
 			panic(r)
 		}
 	}()
+	if quantDelta(states) {
+		// branch-specific quantified facts (frames, closures, quantified contract clauses) would end
+		// up under a disjunction, out of reach of instantiation: keep the paths apart instead
+		return nil
+	}
 	return mergeStates(v.d, states)
+}
+
+// quantDelta: does any state carry a quantified fact beyond the common path-condition prefix?
+func quantDelta(states []*State) bool {
+	var live []*State
+	for _, s := range states {
+		if s != nil && !s.dead {
+			live = append(live, s)
+		}
+	}
+	if len(live) < 2 {
+		return false
+	}
+	n := len(live[0].pc)
+	for _, s := range live[1:] {
+		k := 0
+		for k < n && k < len(s.pc) && s.pc[k] == live[0].pc[k] {
+			k++
+		}
+		n = k
+	}
+	for _, s := range live {
+		for _, c := range s.pc[n:] {
+			if strings.Contains(c, "(forall ") || strings.Contains(c, "(exists ") {
+				return true
+			}
+		}
+	}
+	return false
 }
 
 func (v *V) execStmt(fr *Frame, s ast.Stmt, st *State) []Outcome {
@@ -305,20 +340,30 @@ func (v *V) execCond(fr *Frame, c ast.Expr, st *State) (ts, fs []*State) {
 	}
 	t := st
 	f := st.clone()
+	n0 := len(st.pc)
 	t.assume(b.S)
 	f.assume(not(b.S))
 	if v.spec.Prune && v.dry == 0 {
 		// drop branches that the path condition rules out (e.g. the re-seek branch of a reader
 		// under a forward-target precondition): their code is then not translated at all
-		if !v.feasible(t) {
-			ts = nil
-		} else {
+		var ft, ff bool
+		var wg sync.WaitGroup
+		wg.Add(2)
+		go func() { defer wg.Done(); ft = v.feasible(t, n0) }()
+		go func() { defer wg.Done(); ff = v.feasible(f, n0) }()
+		wg.Wait()
+		if !ft && !ff {
+			// both sides refuted: the path condition itself is contradictory; keep both (nothing is lost)
+			ft, ff = true, true
+		}
+		if ft {
 			ts = []*State{t}
 		}
-		if !v.feasible(f) {
-			fs = nil
-		} else {
+		if ff {
 			fs = []*State{f}
+		}
+		if !ft || !ff {
+			v.pruned++
 		}
 		return ts, fs
 	}
@@ -326,21 +371,21 @@ func (v *V) execCond(fr *Frame, c ast.Expr, st *State) (ts, fs []*State) {
 }
 
 // feasible: false only when a solver shows the path condition unsatisfiable (quickly).
-func (v *V) feasible(st *State) bool {
-	// the branch condition is the last conjunct: it is infeasible iff the rest implies its negation;
-	// only the hypotheses related to the condition are sent (a subset being contradictory suffices)
-	if len(st.pc) == 0 {
+func (v *V) feasible(st *State, n0 int) bool {
+	// the branch condition is what was assumed after the first n0 facts: the branch is infeasible iff
+	// the rest implies its negation; only the hypotheses related to the condition are sent (a subset
+	// being contradictory suffices)
+	if len(st.pc) <= n0 {
 		return true
 	}
-	cond := st.pc[len(st.pc)-1]
-	o := &Obl{PC: append(append([]string(nil), st.pc[:len(st.pc)-1]...), st.guards...), Goal: not(cond), Expect: "unsat", NDecls: len(v.d.lines), NoPre: true}
+	cond := and(st.pc[n0:]...)
+	o := &Obl{PC: append(append([]string(nil), st.pc[:n0]...), st.guards...), Goal: not(cond), Expect: "unsat", NDecls: len(v.d.lines), NoPre: true}
+	// a small neighbourhood of the condition, a short time limit: branches worth pruning are ruled
+	// out by a nearby fact (a flag of the precondition, a comparison just made)
+	o.SliceDepth = 4
 	script := buildScript(v.d.lines, v.axioms, o, false, true, v.d.mode)
-	r := runSolver(context.Background(), solvers[0], script, 3*time.Second)
-	if r.status == "unsat" {
-		v.pruned++
-		return false
-	}
-	return true
+	r := runSolver(context.Background(), solvers[0], script, 1500*time.Millisecond)
+	return r.status != "unsat"
 }
 
 var constantOne = mustConst("1")
